@@ -151,7 +151,8 @@ def BOrd.insertLoop : BOrd → Option Nat → List Nat → BOrd
 
 /-- `_primitive_insert(after_block, insert_blocks)` -/
 def BOrd.primitiveInsert (o : BOrd) (after : Option Nat) (bs : List Nat) : Except AdtErr BOrd :=
-  if bs.any o.mem then .error .valueError
+  -- "already ordered": in the ordering, or listed twice in this call
+  if bs.any o.mem || !decide bs.Nodup then .error .valueError
   else match after with
     | some a => if o.mem a then .ok (o.insertLoop (some a) bs) else .error .keyError
     | none => .ok (o.insertLoop none bs)
